@@ -65,6 +65,7 @@ type Step struct {
 	After  string  `json:"after"`
 	HasRaw bool    `json:"hasraw"`
 	OldIdx bool    `json:"oldidx"`
+	GoOn   bool    `json:"goon"` // multi-table Addition: go on after a refused table and commit
 }
 
 type Cfg struct {
@@ -419,7 +420,16 @@ func (r *runner) step(s Step) (ev map[string]interface{}) {
 		} else {
 			var tr *reftable.Addition
 			tr, err = st.NewAddition()
-			if err == nil {
+			if err == nil && s.GoOn {
+				// a caller that goes on after a refused table and commits what was accepted: a refused table leaves no effect
+				acc := []bool{}
+				for i, p := range s.Parts {
+					acc = append(acc, tr.Add(r.writer(p, idx+uint64(i))) == nil)
+				}
+				ev["accepted"] = acc
+				err = tr.Commit()
+				tr.Close()
+			} else if err == nil {
 				for i, p := range s.Parts {
 					if err = tr.Add(r.writer(p, idx+uint64(i))); err != nil {
 						break
@@ -431,6 +441,7 @@ func (r *runner) step(s Step) (ev map[string]interface{}) {
 				tr.Close()
 			}
 		}
+		ev["goon"] = s.GoOn && s.Multi
 		setRes(err)
 		ev["dirshape"], _, _ = r.decodeDir(false)
 		ev["residue"] = r.residue()
